@@ -61,7 +61,8 @@ def classes(prog, r):
     return out
 
 
-CHECK = ProfileCheck(PROFILE, ["c09", "c08", "c06"], nontrivial, classes)
+CHECK = ProfileCheck(PROFILE, ["c09", "c08", "c06"], nontrivial, classes,
+                     directed=__import__("vp.flo.gen", fromlist=["x"]).aux_with_cond_scenario, directed_share=8)
 RULE = ("Hypothesis-generated programs with plain auxiliaries at several levels (shared originals), done verbs and done-conditions; history "
         "invariants on aux lifetime/order/ownership and a completion-state model for done-conditions; + reference differential. "
         "non-trivial = an aux is entered at least twice or a done-condition is observed both true and false in the run; distinct = distinct program AST")
